@@ -1,5 +1,5 @@
 """The verdict logic of one ./check run for a trace-based property (DESIGN.md section 7)."""
-import hashlib, json, sys, time
+import hashlib, json, re, sys, time
 from pathlib import Path
 from . import core, trace
 
@@ -18,7 +18,7 @@ def known_match(prop, why, lines, signatures):
 def tagged(prop, verdict):
     """Verdict strings of multi-property monitors look like `[C03] why ;; [C14] why`; keep this property's part."""
     status, why = verdict
-    if status == "ok" or "[" not in why:
+    if status == "ok" or not re.match(r"^\[(C\d+|PARSE)\]", why.strip()):
         return verdict
     parts = [p.strip() for p in why.split(";;")]
     mine = [p[len(prop) + 2:].strip() for p in parts if p.startswith(f"[{prop}]")]
